@@ -32,6 +32,7 @@ class ClassBalancedSampler:
 
         # calculate indices per class
         self.indices_per_class = [(classes == i).nonzero().squeeze(1) for i in range(self.num_classes)]
+        assert all(len(indices) > 0 for indices in self.indices_per_class), "every class needs at least one sample"
         self.samples_per_class = samples_per_class or counts.max().item()
 
     @property
